@@ -67,6 +67,7 @@ pub struct SynF {}
 #[unit(Mid, "m")]
 #[unit(Alpha, "α")]
 #[unit(delta_low, "δ")]
+#[unit(Mid_Twin, "m")]
 pub struct SynN {}
 
 /// Single unit.
